@@ -269,3 +269,300 @@ Proof.
   split; [exact H1|exact H2].
 Qed.
 End MemoLocked.
+
+(* ================================================================================================================ *)
+(* B. the retry budget slot                                                                                           *)
+(* ================================================================================================================ *)
+Lemma zupd_same f k v : zupd f k v k = v.
+Proof. unfold zupd. rewrite Nat.eqb_refl. reflexivity. Qed.
+Lemma zupd_other f k v j : j <> k -> zupd f k v j = f j.
+Proof. unfold zupd. intros H. apply Nat.eqb_neq in H. rewrite H. reflexivity. Qed.
+Lemma oupd_same f k v : oupd f k v k = v.
+Proof. unfold oupd. rewrite Nat.eqb_refl. reflexivity. Qed.
+Lemma oupd_other f k v j : j <> k -> oupd f k v j = f j.
+Proof. unfold oupd. intros H. apply Nat.eqb_neq in H. rewrite H. reflexivity. Qed.
+
+(* what the pool operations of thread t do to what ANOTHER thread holds: nothing *)
+Lemma find_rm_other t x u (l : list (nat * nat)) : u <> t ->
+  find (fun h => Nat.eqb (fst h) u) (rm_held t x l) = find (fun h => Nat.eqb (fst h) u) l.
+Proof.
+  intros Hu. induction l as [|h r IH]; simpl; [reflexivity|].
+  destruct (Nat.eqb (fst h) t && Nat.eqb (snd h) x)%bool eqn:E.
+  - apply andb_true_iff in E. destruct E as [E _]. apply Nat.eqb_eq in E.
+    assert (Nat.eqb (fst h) u = false) as -> by (apply Nat.eqb_neq; congruence). reflexivity.
+  - simpl. destruct (Nat.eqb (fst h) u); [reflexivity|exact IH].
+Qed.
+Lemma held_by_get_other t u p : u <> t -> held_by u (pool_step p (PGet t)) = held_by u p.
+Proof.
+  intros Hu. unfold held_by, pool_step, pool_step_c.
+  destruct (take_item _ (p_free p)) as [| |x r]; simpl; try reflexivity;
+    assert (Nat.eqb t u = false) as -> by (apply Nat.eqb_neq; congruence); reflexivity.
+Qed.
+Lemma held_by_put_other t u p : u <> t -> held_by u (pool_step p (PPut t)) = held_by u p.
+Proof.
+  intros Hu. unfold held_by, pool_step, pool_step_c.
+  destruct (find (fun h => Nat.eqb (fst h) t) (p_held p)) as [[t' x]|]; [|reflexivity].
+  simpl. rewrite find_rm_other by exact Hu. reflexivity.
+Qed.
+
+Section BudgetP.
+Variable adapter : nat -> nat.
+Hypothesis adapter_inj : forall x y, adapter x = adapter y -> x = y.
+Notation bstep := (bstep adapter).
+
+Record BInv (b : bst) : Prop := {
+  bi_r : RInv (b_r b);
+  bi_foreign : b_foreign b = false;
+  (* what a thread has stored since it borrowed is what the slot of ITS session's adapter holds *)
+  bi_slot : forall t v, b_set b t = Some v -> exists x, held_by t (r_pool (b_r b)) = Some x /\ b_slot b (adapter x) = v
+}.
+
+Lemma binv_init : BInv binit.
+Proof. constructor; simpl; [exact rinv_init|reflexivity|discriminate]. Qed.
+
+Lemma held_distinct p t u x y : pool_inv p -> t <> u -> held_by t p = Some x -> held_by u p = Some y -> x <> y.
+Proof.
+  intros (_ & ND & _) Htu Hx Hy E. subst y. unfold items in ND. apply nodup_app_r in ND.
+  apply Htu. exact (nodup_snd_unique _ _ _ _ ND (held_by_in _ _ _ Hx) (held_by_in _ _ _ Hy)).
+Qed.
+
+Lemma binv_step b o : BInv b -> BInv (bstep b o).
+Proof.
+  intros [Hr Hf Hs]. destruct o as [o|t v].
+  - destruct o as [t|t|t|t|t]; cbn [PerCall.bstep rop_thread].
+    + (* RGet *)
+      constructor; cbn [b_r b_slot b_set b_foreign b_unset]; [apply rinv_step; exact Hr|exact Hf|].
+      intros u v H. destruct (Nat.eq_dec u t) as [->|Hu]; [rewrite oupd_same in H; discriminate|].
+      rewrite oupd_other in H by exact Hu. destruct (Hs u v H) as (x & Hx & Hv). exists x. split; [|exact Hv].
+      cbn [rstep r_pool]. rewrite held_by_get_other by exact Hu. exact Hx.
+    + (* RUse *)
+      destruct (held_by t (r_pool (b_r b))) as [x|] eqn:Ex.
+      * destruct (b_set b t) as [v|] eqn:Ev.
+        -- constructor; cbn [b_r b_slot b_set b_foreign b_unset]; [apply rinv_step; exact Hr| |].
+           ++ rewrite Hf. cbn [orb]. destruct (Hs t v Ev) as (x' & Hx' & Hv). rewrite Ex in Hx'. injection Hx' as <-.
+              rewrite Hv, Z.eqb_refl. reflexivity.
+           ++ intros u w H. destruct (Hs u w H) as (y & Hy & Hw). exists y. split; [|exact Hw].
+              cbn [rstep]. rewrite Ex. cbn [r_pool]. exact Hy.
+        -- constructor; cbn [b_r b_slot b_set b_foreign b_unset]; [apply rinv_step; exact Hr|exact Hf|].
+           intros u w H. destruct (Hs u w H) as (y & Hy & Hw). exists y. split; [|exact Hw].
+           cbn [rstep]. rewrite Ex. cbn [r_pool]. exact Hy.
+      * constructor; cbn [b_r b_slot b_set b_foreign b_unset]; [apply rinv_step; exact Hr|exact Hf|].
+        intros u w H. destruct (Hs u w H) as (y & Hy & Hw). exists y. split; [|exact Hw].
+        cbn [rstep]. rewrite Ex. cbn [r_pool]. exact Hy.
+    + (* RSleep *) constructor; assumption.
+    + (* RPut *)
+      constructor; cbn [b_r b_slot b_set b_foreign b_unset]; [apply rinv_step; exact Hr|exact Hf|].
+      intros u v H. destruct (Nat.eq_dec u t) as [->|Hu]; [rewrite oupd_same in H; discriminate|].
+      rewrite oupd_other in H by exact Hu. destruct (Hs u v H) as (x & Hx & Hv). exists x. split; [|exact Hv].
+      cbn [rstep r_pool]. rewrite held_by_put_other by exact Hu. exact Hx.
+    + (* RDrop *)
+      constructor; cbn [b_r b_slot b_set b_foreign b_unset]; [apply rinv_step; exact Hr|exact Hf|].
+      intros u v H. destruct (Nat.eq_dec u t) as [->|Hu]; [rewrite oupd_same in H; discriminate|].
+      rewrite oupd_other in H by exact Hu. destruct (Hs u v H) as (x & Hx & Hv). exists x. split; [|exact Hv].
+      cbn [rstep]. destruct (held_by t (r_pool (b_r b))) as [z|]; [|exact Hx].
+      cbn [r_pool]. unfold held_by in *. cbn [p_held]. rewrite find_rm_other by exact Hu. exact Hx.
+  - (* BSet *)
+    cbn [PerCall.bstep]. destruct (held_by t (r_pool (b_r b))) as [x|] eqn:Ex; [|constructor; assumption].
+    constructor; cbn [b_r b_slot b_set b_foreign b_unset]; [exact Hr|exact Hf|].
+    intros u w H. destruct (Nat.eq_dec u t) as [->|Hu].
+    + rewrite oupd_same in H. injection H as <-. exists x. split; [exact Ex|apply zupd_same].
+    + rewrite oupd_other in H by exact Hu. destruct (Hs u w H) as (y & Hy & Hw). exists y. split; [exact Hy|].
+      rewrite zupd_other; [exact Hw|]. intros E. apply adapter_inj in E.
+      destruct Hr as [Hp _ _]. exact (held_distinct _ _ _ _ _ Hp Hu Hy Ex E).
+Qed.
+
+(* ANY sequence of borrow / store-budget / send / sleep / give-back / lose events by any threads (hence any interleaving
+   of any requests, with any budgets and any attempt outcomes): when every session has an adapter of its own, no attempt
+   is ever sent with a budget other than the one its own request stored -- whatever the other requests in flight store,
+   use up or override in the meantime *)
+Theorem budget_private evs :
+  let b := bexec adapter evs in
+  b_foreign b = false /\
+  (forall t v, b_set b t = Some v -> exists x, held_by t (r_pool (b_r b)) = Some x /\ b_slot b (adapter x) = v) /\
+  r_clash (b_r b) = false /\ p_err (r_pool (b_r b)) = false.
+Proof.
+  intros b.
+  assert (BInv b) as [[Hp Hc _] Hf Hs].
+  { unfold b, bexec. generalize binv_init. generalize binit.
+    induction evs as [|o l IH]; intros b0 H; simpl; [exact H|]. apply IH. apply binv_step. exact H. }
+  repeat split; auto. exact (proj1 Hp).
+Qed.
+
+(* ---------- threads RUNNING request programs: no attempt goes out before its request has stored its budget ---------- *)
+Record BCInv (c : bcfg) : Prop := {
+  bc_inv : BInv (bc_st c);
+  bc_unset : b_unset (bc_st c) = false;
+  bc_unheld : r_unheld (b_r (bc_st c)) = false;
+  bc_ok : forall t, bok t (count_held t (r_pool (b_r (bc_st c))))
+                       (match b_set (bc_st c) t with Some _ => true | None => false end) (bc_rem c t) = true
+}.
+Lemma bcupd_same f t x : bcupd f t x t = x.
+Proof. unfold bcupd. rewrite Nat.eqb_refl. reflexivity. Qed.
+Lemma bcupd_other f t x u : u <> t -> bcupd f t x u = f u.
+Proof. unfold bcupd. intros H. apply Nat.eqb_neq in H. rewrite H. reflexivity. Qed.
+
+Lemma count_drop_other t u x p : u <> t -> In (t, x) (p_held p) ->
+  count_held u (mkPool (p_free p) (p_next p) (rm_held t x (p_held p)) (p_err p)) = count_held u p.
+Proof.
+  intros Hu Hin. unfold count_held. cbn [p_held]. rewrite (count_rm u t x _ Hin).
+  assert (Nat.eqb t u = false) as -> by (apply Nat.eqb_neq; congruence). reflexivity.
+Qed.
+
+Lemma bcinv_step c t : BCInv c -> BCInv (bcstep adapter c t).
+Proof.
+  intros [Hb Hu Hh Hok]. unfold bcstep. destruct (bc_rem c t) as [|o r] eqn:Er; [constructor; assumption|].
+  pose proof (Hok t) as Ht. rewrite Er in Ht.
+  pose proof (binv_step _ o Hb) as Hb'.
+  destruct Hb as [Hr Hf Hs]. pose proof Hr as [Hp _ _].
+  set (b := bc_st c) in *.
+  destruct o as [o|u v].
+  - destruct o as [u|u|u|u|u]; cbn [bok] in Ht;
+      repeat (apply andb_true_iff in Ht; destruct Ht as [Ht ?]);
+      match goal with H : Nat.eqb u t = true |- _ => apply Nat.eqb_eq in H; subst u end.
+    + (* RGet *)
+      apply Nat.eqb_eq in H0.
+      constructor; cbn [bc_st bc_rem]; [exact Hb'| | |]; cbn [PerCall.bstep rop_thread b_r b_set b_unset rstep r_pool r_unheld];
+        [exact Hu|exact Hh|].
+      intros w. destruct (Nat.eq_dec w t) as [->|Hw].
+      * rewrite bcupd_same, oupd_same. rewrite (get_count t t _ Hp), Nat.eqb_refl, H0. exact H.
+      * rewrite bcupd_other, oupd_other by exact Hw. rewrite (get_count w t _ Hp).
+        assert (Nat.eqb t w = false) as -> by (apply Nat.eqb_neq; congruence). exact (Hok w).
+    + (* RUse *)
+      apply Nat.eqb_eq in H1. destruct (held_by_some _ _ H1) as (x & Ex).
+      destruct (b_set b t) as [v|] eqn:Ev; [|discriminate].
+      constructor; cbn [bc_st bc_rem]; [exact Hb'| | |]; cbn [PerCall.bstep]; rewrite Ex, Ev;
+        cbn [b_r b_set b_unset rstep r_pool r_unheld]; rewrite ?Ex; cbn [r_pool r_unheld]; [exact Hu|exact Hh|].
+      intros w. destruct (Nat.eq_dec w t) as [->|Hw].
+      * rewrite bcupd_same, Ev, H1. exact H.
+      * rewrite bcupd_other by exact Hw. exact (Hok w).
+    + (* RSleep *)
+      constructor; cbn [bc_st bc_rem]; [exact Hb'| | |]; cbn [PerCall.bstep]; [exact Hu|exact Hh|].
+      intros w. destruct (Nat.eq_dec w t) as [->|Hw]; [rewrite bcupd_same; exact H|rewrite bcupd_other by exact Hw; exact (Hok w)].
+    + (* RPut *)
+      apply Nat.eqb_eq in H0.
+      constructor; cbn [bc_st bc_rem]; [exact Hb'| | |]; cbn [PerCall.bstep rop_thread b_r b_set b_unset rstep r_pool r_unheld];
+        [exact Hu|exact Hh|].
+      intros w. pose proof (put_count w t _ H0) as Hc. destruct (Nat.eq_dec w t) as [->|Hw].
+      * rewrite bcupd_same, oupd_same. rewrite Nat.eqb_refl in Hc.
+        assert (count_held t (pool_step (r_pool (b_r b)) (PPut t)) = 0) as -> by lia. exact H.
+      * rewrite bcupd_other, oupd_other by exact Hw.
+        assert (Nat.eqb t w = false) as E by (apply Nat.eqb_neq; congruence). rewrite E in Hc.
+        assert (count_held w (pool_step (r_pool (b_r b)) (PPut t)) = count_held w (r_pool (b_r b))) as -> by lia. exact (Hok w).
+    + (* RDrop *)
+      apply Nat.eqb_eq in H0. destruct (held_by_some _ _ H0) as (x & Ex). pose proof (held_by_in _ _ _ Ex) as Hin.
+      constructor; cbn [bc_st bc_rem]; [exact Hb'| | |]; cbn [PerCall.bstep rop_thread b_r b_set b_unset rstep]; rewrite ?Ex;
+        cbn [r_pool r_unheld]; [exact Hu|exact Hh|].
+      intros w. destruct (Nat.eq_dec w t) as [->|Hw].
+      * rewrite bcupd_same, oupd_same.
+        assert (count_held t (mkPool (p_free (r_pool (b_r b))) (p_next (r_pool (b_r b)))
+                                     (rm_held t x (p_held (r_pool (b_r b)))) (p_err (r_pool (b_r b)))) = 0) as ->.
+        { unfold count_held in *. cbn [p_held]. pose proof (count_rm t t x _ Hin) as Hc. rewrite Nat.eqb_refl in Hc. lia. }
+        exact H.
+      * rewrite bcupd_other, oupd_other by exact Hw. rewrite count_drop_other by assumption. exact (Hok w).
+  - (* BSet *)
+    cbn [bok] in Ht. repeat (apply andb_true_iff in Ht; destruct Ht as [Ht ?]).
+    apply Nat.eqb_eq in Ht. subst u. apply Nat.eqb_eq in H0. destruct (held_by_some _ _ H0) as (x & Ex).
+    constructor; cbn [bc_st bc_rem]; [exact Hb'| | |]; cbn [PerCall.bstep]; rewrite Ex; cbn [b_r b_set b_unset];
+      [exact Hu|exact Hh|].
+    intros w. destruct (Nat.eq_dec w t) as [->|Hw].
+    + rewrite bcupd_same, oupd_same. exact H.
+    + rewrite bcupd_other, oupd_other by exact Hw. exact (Hok w).
+Qed.
+End BudgetP.
+
+(* the request programs are what `bok` allows -- PROVIDED the budget is stored before every attempt *)
+Lemma bok_battempts fin sl t rest : bok t 0 false rest = true ->
+  forall outs v s, bok t 1 s (battempts fin sl true t v outs ++ rest) = true.
+Proof.
+  intros Hrest. induction outs as [|o r IH]; intros v s.
+  - simpl. destruct fin; simpl; rewrite Nat.eqb_refl; exact Hrest.
+  - destruct o as [|q|q].
+    + cbn [battempts]. cbn [app bok]. rewrite !Nat.eqb_refl. cbn [andb].
+      destruct sl; cbn [app bok]; rewrite ?Nat.eqb_refl; cbn [andb]; rewrite <- ?app_assoc; cbn [app bok];
+        rewrite ?Nat.eqb_refl; cbn [andb]; apply IH.
+    + destruct q; cbn [battempts app bok]; rewrite ?Nat.eqb_refl; cbn [andb]; try exact Hrest;
+        destruct fin; cbn [bok]; rewrite ?Nat.eqb_refl; cbn [andb]; exact Hrest.
+    + cbn [battempts app bok]. rewrite ?Nat.eqb_refl. cbn [andb].
+      destruct fin; cbn [bok]; rewrite ?Nat.eqb_refl; cbn [andb]; exact Hrest.
+Qed.
+Lemma bok_thread_prog fin sl t reqs : bok t 0 false (bthread_prog fin sl true t reqs) = true.
+Proof.
+  induction reqs as [|q r IH]; [reflexivity|].
+  unfold bthread_prog in *. cbn [flat_map]. unfold brequest at 1. cbn [app bok]. rewrite Nat.eqb_refl. cbn [andb].
+  apply bok_battempts. exact IH.
+Qed.
+
+(* ANY threads, each running ANY sequence of requests with ANY budgets and attempt outcomes, under EVERY interleaving,
+   every session with an adapter of its own and the budget stored before every attempt (either value of the other two
+   translated flags): no attempt is sent with another request's budget, none before its own budget is in place, none
+   without a borrowed session or through a session in other hands *)
+Theorem budget_requests_safe adapter fin sl (reqs : nat -> list (Z * list Z)) schedule :
+  (forall x y, adapter x = adapter y -> x = y) ->
+  let c := bcexec adapter (fun t => bthread_prog fin sl true t (reqs t)) schedule in
+  b_foreign (bc_st c) = false /\ b_unset (bc_st c) = false /\
+  r_unheld (b_r (bc_st c)) = false /\ r_clash (b_r (bc_st c)) = false /\ p_err (r_pool (b_r (bc_st c))) = false.
+Proof.
+  intros Hinj c.
+  assert (BCInv adapter c) as [[[Hp Hc _] Hf _] Hu Hh _].
+  { unfold c, bcexec.
+    assert (BCInv adapter (mkBC binit (fun t => bthread_prog fin sl true t (reqs t)))) as Hi.
+    { constructor; cbn [bc_st bc_rem]; [apply binv_init|reflexivity|reflexivity|]. intros t. apply bok_thread_prog. }
+    revert Hi. generalize (mkBC binit (fun t => bthread_prog fin sl true t (reqs t))).
+    induction schedule as [|t sch IH]; intros c0 H; simpl; [exact H|]. apply IH. apply bcinv_step; assumption. }
+  repeat split; auto. exact (proj1 Hp).
+Qed.
+
+(* what each ingredient buys.  ONE adapter for all sessions: request 1 stores its budget between request 0's store and
+   request 0's send -- request 0 is sent with request 1's budget *)
+Lemma budget_shared_refuted :
+  exists evs, b_foreign (bexec (fun _ => 0) evs) = true /\ r_clash (b_r (bexec (fun _ => 0) evs)) = false.
+Proof. exists [BR (RGet 0); BR (RGet 1); BSet 0 3%Z; BSet 1 5%Z; BR (RUse 0)]. vm_compute. split; reflexivity. Qed.
+(* ... also for two requests as translated, under a schedule (thread 1 uses up a retry while thread 0 is between its
+   store and its send) *)
+Lemma budget_shared_requests_refuted :
+  exists schedule,
+    let prog := fun t : nat => match t with
+                               | 0 => brequest false true true 0 2%Z [1%Z]
+                               | 1 => brequest false true true 1 2%Z [0%Z; 1%Z]
+                               | _ => [] end in
+    b_foreign (bc_st (bcexec (fun _ => 0) prog schedule)) = true /\
+    b_foreign (bc_st (bcexec (fun x => x) prog schedule)) = false.
+Proof. exists [0; 1; 0; 1; 1; 1; 1; 0; 0]. vm_compute. split; reflexivity. Qed.
+(* the budget not stored before the attempt: the second request of a thread goes out with whatever its session's adapter
+   was left with *)
+Lemma budget_not_stored_refuted :
+  b_unset (bexec (fun x => x) (bthread_prog false true false 0 [(2%Z, [1%Z])])) = true.
+Proof. vm_compute. reflexivity. Qed.
+
+(* the adapters as TRANSLATED: one per session *)
+Lemma adapter_of_inj : forall x y, adapter_of x = adapter_of y -> x = y.
+Proof. intros x y H. exact H. Qed.
+Lemma session_parts :
+  c20_session_shared_parts = ["auth"; "url"]%string /\ c20_auth_state_writes = [] /\
+  c20_adapter_per_session = true /\ c20_request_sets_budget_first = true.
+Proof. repeat split; reflexivity. Qed.
+Lemma budget_example :
+  let prog := fun t : nat => match t with
+                             | 0 => bthread_prog c20_pool_call_finally c20_request_sleep_in_borrow c20_request_sets_budget_first 0
+                                                 [(2%Z, [0%Z; 1%Z]); (0%Z, [1%Z])]
+                             | 1 => bthread_prog c20_pool_call_finally c20_request_sleep_in_borrow c20_request_sets_budget_first 1
+                                                 [(2%Z, [0%Z; 0%Z; 1%Z])]
+                             | _ => [] end in
+  let c := bcexec adapter_of prog [0; 1; 0; 1; 1; 0; 0; 1; 1; 0; 0; 1; 1; 1; 1; 0; 0; 0; 0; 0; 1; 1; 1] in
+  (forall t, t < 2 -> bc_rem c t = []) /\ b_foreign (bc_st c) = false /\ b_unset (bc_st c) = false /\
+  p_next (r_pool (b_r (bc_st c))) = 2.
+Proof.
+  vm_compute. split; [|repeat split; reflexivity].
+  intros t Ht. destruct t as [|[|t]]; [reflexivity|reflexivity|lia].
+Qed.
+Lemma retry_budget_private evs :
+  let b := bexec adapter_of evs in
+  b_foreign b = false /\
+  (forall t v, b_set b t = Some v -> exists x, held_by t (r_pool (b_r b)) = Some x /\ b_slot b (adapter_of x) = v) /\
+  r_clash (b_r b) = false /\ p_err (r_pool (b_r b)) = false.
+Proof. exact (budget_private adapter_of adapter_of_inj evs). Qed.
+Lemma retry_budget_requests_safe fin sl (reqs : nat -> list (Z * list Z)) schedule :
+  let c := bcexec adapter_of (fun t => bthread_prog fin sl true t (reqs t)) schedule in
+  b_foreign (bc_st c) = false /\ b_unset (bc_st c) = false /\
+  r_unheld (b_r (bc_st c)) = false /\ r_clash (b_r (bc_st c)) = false /\ p_err (r_pool (b_r (bc_st c))) = false.
+Proof. exact (budget_requests_safe adapter_of fin sl reqs schedule adapter_of_inj). Qed.
